@@ -811,6 +811,15 @@ def r_none_truthy(ctx: RuleCtx, col: Collector):
                 if isinstance(t, ast.UnaryOp) and isinstance(t.op, ast.Not) and isinstance(t.operand, ast.Name) and \
                         t.operand.id in opt and norm(n.orelse) == t.operand.id:
                     hit = (n, t.operand.id)
+            if isinstance(n, ast.If):
+                # statement form:  if not p: p = <default>   /   if p: ... else: p = <default>
+                t = n.test
+                neg = isinstance(t, ast.UnaryOp) and isinstance(t.op, ast.Not)
+                nm = t.operand if neg else t
+                if isinstance(nm, ast.Name) and nm.id in opt:
+                    branch = n.body if neg else n.orelse
+                    if any(isinstance(b, ast.Assign) and len(b.targets) == 1 and norm(b.targets[0]) == nm.id for b in branch):
+                        hit = (t, nm.id)
             if hit:
                 bad = True
                 col.bad(where_of(f), f.rel, line_of(hit[0]), stmt_key(hit[0]),
